@@ -28,10 +28,19 @@ struct Case {
 fn decode(tape: &[u32]) -> Case {
     let mut t = Tape::new(tape);
     let o = GenOpts { acts: &[ActK::Linear, ActK::Tanh, ActK::Sigmoid, ActK::ReLU, ActK::Leaky], max_hw: 5, ..GenOpts::default() };
-    let input = if t.bool() { vec![t.usize(1, 3), t.usize(1, 5), t.usize(1, 5)] } else { vec![t.usize(1, 6)] };
+    // wide flat blocks (element counts beyond 64 / 256 / 1024): one case in 40 has 65-300 elements, one in 600 1025-2100
+    let wide = if t.chance(1, 600) { Some(t.usize(1025, 2100)) } else if t.chance(1, 40) { Some(t.usize(65, 300)) } else { None };
+    let input = if let Some(n) = wide { vec![n] } else if t.bool() { vec![t.usize(1, 3), t.usize(1, 5), t.usize(1, 5)] } else { vec![t.usize(1, 6)] };
     let mut fb = gen_feedback(&mut t, &input, &o, true, true);
-    if let LayerSpec::Feedback { loops, .. } = &mut fb {
+    if let LayerSpec::Feedback { loops, layers, .. } = &mut fb {
         *loops = t.usize(1, 4);
+        if let Some(n) = wide {
+            // narrow waist, so that the cost stays linear in the width
+            *layers = vec![
+                LayerSpec::Dense { out: t.usize(1, 6), act: gen_act(&mut t, &o), bias: t.bool(), dropout: None },
+                LayerSpec::Dense { out: n, act: gen_act(&mut t, &o), bias: t.bool(), dropout: None },
+            ];
+        }
     }
     let mut layers = vec![fb];
     if t.bool() {
@@ -73,6 +82,9 @@ fn check(case: &Case, ev: &mut CaseEv) -> CheckResult {
     ev.class(format!("loops{}", loops));
     ev.class(format!("skips:in={},out={}", inskips, outskips));
     ev.class(if spec.input.len() == 3 { "spatial block" } else { "flat block" });
+    if spec.input.len() == 1 && spec.input[0] > 64 {
+        ev.class(if spec.input[0] > 1024 { "wide flat block (> 1024 elements)" } else { "wide flat block (65-300 elements)" });
+    }
     if followed {
         ev.class("dense follows");
     }
@@ -179,7 +191,7 @@ impl Prop for C11 {
         t.pick(400_000, 30_000_000)
     }
     fn rule(&self) -> String {
-        "tape-decoded feedback block: flat (dense n -> n or n -> m -> n, n 1..6) or spatial (1-2 shape-preserving convolution / deconvolution layers on c 1-3 x h,w 1-5), loops 1..4, the four skip-flag combinations, the five accumulations, followed or not by a dense layer, tied distinct weights set through the hooks, random inputs. Oracle: r1 = F(x), ri = F(acc(r(i-1); x)) with input skips else F(r(i-1)); output acc(rL; r1..r(L-1)) with output skips else rL; flattened when a dense layer follows - composed from the library's own single-layer forwards (the accumulations are computed by the harness element-wise); compared to predict within 2 ulp (bit-identical on the current tree). Non-trivial: loops >= 2 or a skip flag set. Distinct = full block specification.".into()
+        "tape-decoded feedback block: flat (dense n -> n or n -> m -> n, n 1..6; one case in 40 with n 65..300 and one in 600 with n 1025..2100, narrow waist) or spatial (1-2 shape-preserving convolution / deconvolution layers on c 1-3 x h,w 1-5), loops 1..4, the four skip-flag combinations, the five accumulations, followed or not by a dense layer, tied distinct weights set through the hooks, random inputs. Oracle: r1 = F(x), ri = F(acc(r(i-1); x)) with input skips else F(r(i-1)); output acc(rL; r1..r(L-1)) with output skips else rL; flattened when a dense layer follows - composed from the library's own single-layer forwards (the accumulations are computed by the harness element-wise); compared to predict within 2 ulp (bit-identical on the current tree). Non-trivial: loops >= 2 or a skip flag set. Distinct = full block specification.".into()
     }
     fn run_case(&self, tape: &[u32], ev: &mut CaseEv) -> CheckResult {
         check(&decode(tape), ev)
